@@ -88,6 +88,11 @@ func (C06) Generate(t *tape.Tape, tier string) interface{} {
 	if t.Bool(1, 2) {
 		first.Ops = append(first.Ops, C06Op{Op: "unused", Dir: order[0]}) // again after the other directory
 	}
+	if t.Bool(1, 5) {
+		// a source is edited in place between two runs of the same process: same length, same mtime
+		// (a clock fault); one of its used imports becomes unused and must go in the next run
+		first.Ops = append(first.Ops, C06Op{Op: "edit", Dir: order[0]}, C06Op{Op: "unused", Dir: order[0]})
+	}
 	first.TmpOtherFS = t.Bool(1, 4)
 	sc.Procs = append(sc.Procs, first)
 	if t.Bool(2, 3) {
@@ -178,6 +183,12 @@ func (C06) Run(ctx *sim.RunCtx, data json.RawMessage) (*sim.Outcome, error) {
 	}
 	var hist []string
 	secondRunOnMulti := false
+	cur := make([][]gen.ImportFile, len(sc.Dirs)) // ground truth as edits are planned
+	for d := range sc.Dirs {
+		cur[d] = expectedClean(sc.Dirs[d])
+	}
+	justEdited := map[int]bool{}
+	judgeTruth := map[int][]gen.ImportFile{}
 	for pi, p := range sc.Procs {
 		proc := &sim.Proc{Schedule: sim.Canonical(), Cwd: ctx.Dir, TmpOtherFS: p.TmpOtherFS}
 		if p.TmpOtherFS {
@@ -188,7 +199,10 @@ func (C06) Run(ctx *sim.RunCtx, data json.RawMessage) (*sim.Outcome, error) {
 			dir  int
 		}
 		var metas []meta
+		edits := map[int]*gen.ImportFile{}
+		truthAt := map[int][]gen.ImportFile{} // ground truth in force when meta i ran
 		for _, op := range p.Ops {
+			truthAt[len(metas)] = cur[op.Dir]
 			hist = append(hist, fmt.Sprintf("%s%d", op.Op, op.Dir))
 			dirArg := dirs[op.Dir]
 			switch op.ArgForm {
@@ -203,6 +217,26 @@ func (C06) Run(ctx *sim.RunCtx, data json.RawMessage) (*sim.Outcome, error) {
 				out.Faults["arg-form"]++
 			}
 			switch op.Op {
+			case "edit":
+				ed := planEdit(cur[op.Dir])
+				if ed == nil {
+					// nothing suitable to edit: the op degenerates to a no-op
+					proc.Ops = append(proc.Ops, sim.Op{Op: "snapshot", Args: map[string]interface{}{"dir": dirs[op.Dir]}})
+					metas = append(metas, meta{"skip", op.Dir})
+				} else {
+					proc.Ops = append(proc.Ops, sim.Op{Op: "writeFile", Args: map[string]interface{}{"path": filepath.Join(dirs[op.Dir], filepath.FromSlash(ed.Path)), "text": materialiseLegacy(ed.Text), "preserve_mtime": true}})
+					metas = append(metas, meta{"edit", op.Dir})
+					edits[len(metas)-1] = ed
+					// the ground truth of that directory from now on
+					next := append([]gen.ImportFile(nil), cur[op.Dir]...)
+					for i := range next {
+						if next[i].Path == ed.Path {
+							next[i] = *ed
+						}
+					}
+					cur[op.Dir] = next
+					out.Faults["file-edited-in-place-same-mtime"]++
+				}
 			case "noise":
 				proc.Ops = append(proc.Ops, sim.Op{Op: "identDir", Args: map[string]interface{}{"dir": dirs[op.Dir]}})
 				metas = append(metas, meta{"noise", op.Dir})
@@ -243,6 +277,17 @@ func (C06) Run(ctx *sim.RunCtx, data json.RawMessage) (*sim.Outcome, error) {
 			}
 			rec := res.Records[ri]
 			switch m.kind {
+			case "skip":
+				opNo++
+				lastUnused = -1
+			case "edit":
+				opNo++
+				lastUnused = -1
+				if !rec.OK {
+					return nil, sim.Harness("edit failed: %s", rec.Panic)
+				}
+				justEdited[m.dir] = true
+				judgeTruth[m.dir] = cur2(truthAt, ri, metas, sc.Dirs[m.dir], edits)
 			case "noise":
 				opNo++
 				lastUnused = -1
@@ -274,9 +319,20 @@ func (C06) Run(ctx *sim.RunCtx, data json.RawMessage) (*sim.Outcome, error) {
 					}
 				}
 				d := m.dir
+				if justEdited[d] && d != lastUnused {
+					// the snapshot right after the edit: the edited state is the new starting point
+					state[d] = snap
+					cleaned[d] = 0
+					justEdited[d] = false
+					continue
+				}
 				if d == lastUnused && cleaned[d] == 0 {
-					// first removal in this directory: judge against the ground truth
-					c06Judge(sc.Dirs[d], state[d], snap, fmt.Sprintf("process %d, first removal in directory %d", pi, d), add, out)
+					// first removal in this directory (or first after an edit): judge against the ground truth
+					truth := sc.Dirs[d]
+					if jt, ok := judgeTruth[d]; ok {
+						truth = jt
+					}
+					c06Judge(truth, state[d], snap, fmt.Sprintf("process %d, first removal in directory %d", pi, d), add, out)
 					cleaned[d]++
 					state[d] = snap
 					continue
@@ -303,6 +359,111 @@ func (C06) Run(ctx *sim.RunCtx, data json.RawMessage) (*sim.Outcome, error) {
 	out.NonTrivial = secondRunOnMulti
 	out.Sample = map[string]interface{}{"directories": sc.Dirs, "processes": sc.Procs}
 	return out, nil
+}
+
+// expectedClean is the directory after a correct first removal: unused single-type imports gone.
+func expectedClean(files []gen.ImportFile) []gen.ImportFile {
+	var out []gen.ImportFile
+	for _, f := range files {
+		if f.Exempt {
+			out = append(out, f)
+			continue
+		}
+		drop := map[int]bool{}
+		for _, im := range f.Imports {
+			if im.Role == "" && !im.Wildcard && !im.Static {
+				drop[im.Line] = true
+			}
+		}
+		lines := strings.Split(f.Text, "\n")
+		var kept []string
+		newLine := map[int]int{}
+		for i, l := range lines {
+			if drop[i+1] {
+				continue
+			}
+			kept = append(kept, l)
+			newLine[i+1] = len(kept)
+		}
+		g := f
+		g.Text = strings.Join(kept, "\n")
+		g.Imports = nil
+		for _, im := range f.Imports {
+			if drop[im.Line] {
+				continue
+			}
+			im.Line = newLine[im.Line]
+			g.Imports = append(g.Imports, im)
+		}
+		out = append(out, g)
+	}
+	return out
+}
+
+// planEdit picks, deterministically, a cleaned file with an import used in its body and returns
+// the file as it looks after every use of that simple name (outside import lines) was replaced
+// by a same-length other name: the import is unused from then on.
+func planEdit(files []gen.ImportFile) *gen.ImportFile {
+	sortedFiles := append([]gen.ImportFile(nil), files...)
+	sort.Slice(sortedFiles, func(i, j int) bool { return sortedFiles[i].Path < sortedFiles[j].Path })
+	for _, f := range sortedFiles {
+		if f.Exempt || strings.Contains(f.Text, "\r") {
+			continue
+		}
+		for k, im := range f.Imports {
+			if im.Role == "" || im.Wildcard || im.Static || len(im.Simple) < 3 || im.Simple[0] > 127 {
+				continue
+			}
+			dupes := 0
+			for _, o := range f.Imports {
+				if o.Simple == im.Simple || strings.HasSuffix(o.Simple, im.Simple) || strings.HasPrefix(o.Simple, im.Simple) {
+					dupes++
+				}
+			}
+			if dupes != 1 {
+				continue
+			}
+			repl := im.Simple[:len(im.Simple)-1] + "q"
+			if repl == im.Simple {
+				repl = im.Simple[:len(im.Simple)-1] + "z"
+			}
+			lines := strings.Split(f.Text, "\n")
+			for i, l := range lines {
+				if strings.HasPrefix(strings.TrimSpace(l), "import ") {
+					continue
+				}
+				lines[i] = strings.ReplaceAll(l, im.Simple, repl)
+			}
+			g := f
+			g.Text = strings.Join(lines, "\n")
+			if len(g.Text) != len(f.Text) || g.Text == f.Text {
+				continue
+			}
+			g.Imports = append([]gen.ImportLine(nil), f.Imports...)
+			g.Imports[k].Role = ""
+			return &g
+		}
+	}
+	return nil
+}
+
+// cur2 returns the ground truth valid after the edit recorded at meta index ri.
+func cur2(truthAt map[int][]gen.ImportFile, ri int, metas interface{}, orig []gen.ImportFile, edits map[int]*gen.ImportFile) []gen.ImportFile {
+	base := truthAt[ri]
+	if base == nil {
+		base = expectedClean(orig)
+	}
+	ed := edits[ri]
+	if ed == nil {
+		return base
+	}
+	out := append([]gen.ImportFile(nil), base...)
+	for i := range out {
+		if out[i].Path == ed.Path {
+			out[i] = *ed
+		}
+	}
+	return out
 }
 
 func hasRemovable(files []gen.ImportFile) bool {
